@@ -1,4 +1,4 @@
-import FitProps.C17Defs
+import FitProps.C17DefsMesg
 /-! Kernel evaluations for `FitProps/C17.lean` (the statements and what they mean are documented there). -/
 namespace Fit.C17.Lemmas
 open Fit.ProfileSpec Fit.Gen Fit.C17
